@@ -1,6 +1,8 @@
 package gen
 
 import (
+	"fmt"
+
 	m "verif/internal/model"
 	"verif/internal/value"
 )
@@ -159,7 +161,10 @@ func ViewMatrix() *m.Design {
 func GRPCMatrix() *m.Design {
 	obj := func(fs ...*m.Field) *m.Attr { return &m.Attr{Type: &m.Type{Kind: m.Object, Fields: fs}} }
 	tag := 0
-	fld := func(n string, a *m.Attr, req bool) *m.Field { tag++; return &m.Field{Name: n, Attr: a, Required: req, Tag: tag} }
+	fld := func(n string, a *m.Attr, req bool) *m.Field {
+		tag++
+		return &m.Field{Name: n, Attr: a, Required: req, Tag: tag}
+	}
 	reset := func(start int) { tag = start }
 	arr := func(e *m.Attr) *m.Attr { return &m.Attr{Type: &m.Type{Kind: m.Array, Elem: e}} }
 	mp := func(k, v *m.Attr) *m.Attr { return &m.Attr{Type: &m.Type{Kind: m.Map, Key: k, Val: v}} }
@@ -337,4 +342,30 @@ func MapKeyMatrix() *m.Design {
 	return &m.Design{API: m.API{Name: "mapkeys", Title: "Map key matrix"},
 		Services: []*m.Service{{Name: "mapkeys", HasHTTP: true, Methods: methods}},
 		Features: []string{"fixed-design:map-key-matrix", "map", "non-string-map-keys"}}
+}
+
+// ValidationMatrix is a fixed design in which several methods carry an
+// attribute with the same name (same error context: "body.name", "prefix")
+// but different constraints, so that anything the runtime validators remember
+// between calls (compiled patterns ...) under a key that does not identify the
+// constraint shows up as one method judged by another method's rule.
+func ValidationMatrix() *m.Design {
+	obj := func(fs ...*m.Field) *m.Attr { return &m.Attr{Type: &m.Type{Kind: m.Object, Fields: fs}} }
+	fld := func(n string, a *m.Attr, req bool) *m.Field { return &m.Field{Name: n, Attr: a, Required: req} }
+	pat := func(p string) *m.Attr { return &m.Attr{Type: &m.Type{Kind: m.String}, V: &m.Validation{Pattern: p}} }
+	fmtA := func(f string) *m.Attr { return &m.Attr{Type: &m.Type{Kind: m.String}, V: &m.Validation{Format: f}} }
+	var methods []*m.Method
+	for i, p := range Patterns {
+		methods = append(methods, &m.Method{Name: fmt.Sprintf("body%d", i), Payload: obj(fld("name", pat(p.Pattern), true), fld("note", m.Prim(m.String), false)),
+			HTTP: &m.HTTPEndpoint{Routes: []m.Route{{Verb: "POST", Path: fmt.Sprintf("/v/body%d", i)}}}})
+		methods = append(methods, &m.Method{Name: fmt.Sprintf("query%d", i), Payload: obj(fld("prefix", pat(p.Pattern), true)),
+			HTTP: &m.HTTPEndpoint{Routes: []m.Route{{Verb: "GET", Path: fmt.Sprintf("/v/query%d", i)}}, Query: []m.Mapping{{Attr: "prefix"}}}})
+	}
+	for i, f := range []string{"FormatDate", "FormatUUID", "FormatIPv4", "FormatIPv6", "FormatEmail"} {
+		methods = append(methods, &m.Method{Name: fmt.Sprintf("format%d", i), Payload: obj(fld("name", fmtA(f), true)),
+			HTTP: &m.HTTPEndpoint{Routes: []m.Route{{Verb: "POST", Path: fmt.Sprintf("/v/format%d", i)}}}})
+	}
+	return &m.Design{API: m.API{Name: "validations", Title: "Validation matrix"},
+		Services: []*m.Service{{Name: "validations", HasHTTP: true, Methods: methods}},
+		Features: []string{"fixed-design:validation-matrix", "pattern", "format", "same-attribute-name-different-constraints"}}
 }
